@@ -94,6 +94,15 @@ def canon_event(e: Any) -> str:
         return repr(e)
 
 
+def canon_envelope(env: Any) -> str:
+    """an event as the workflow store holds it (EventEnvelopeWithMetadata / its JSON)"""
+    try:
+        d = env if isinstance(env, dict) else json.loads(env.model_dump_json())
+        return str(d.get("type")) + ":" + json.dumps(d.get("value"), sort_keys=True)
+    except Exception:  # noqa: BLE001
+        return repr(env)
+
+
 def canon_result(outcome: tuple) -> str:
     kind, v = outcome
     if kind == "result":
@@ -125,6 +134,7 @@ class WaitCall:
     entries_after: list | None = None  # TaskJournal._entries after the call
     idx_after: int = 0  # TaskJournal._replay_index after the call
     insert_seq: int | None = None  # seq_num of the INSERT made during the call
+    replaying_after: bool = False  # adapter.is_replaying() right after the call (what the tick of this completion is published under)
 
 
 @dataclass
@@ -145,6 +155,12 @@ class Trace:
     final_stream: list[str] = field(default_factory=list)
     final_wf_stream: list[str] = field(default_factory=list)  # only the events published by the control loop (memoised writes)
     journal_now: list = field(default_factory=list)  # (seq_num, key) rows so far (initial rows + INSERTs seen)
+    # server mode (the control loop talks to _ServerInternalRunAdapter over the DBOS adapter; real SqliteWorkflowStore)
+    store_appends: list[tuple] = field(default_factory=list)  # (ticks reduced so far, event) appended to the store by THIS process
+    store_events: list[str] = field(default_factory=list)  # the run's rows of the store's events table at the end, in sequence order
+    handler: tuple | None = None  # (status, result or None) of the handler row at the end
+    store_base: int = 0  # rows of the events table this process started with
+    published: list[tuple] = field(default_factory=list)  # (ticks reduced so far, event) the control loop handed to the server adapter
 
 
 class _Obs:
@@ -163,7 +179,8 @@ def _take_snapshot(kind: str, **info: Any) -> None:
             "stream": len([o for o in db.stream_origin.get((RUN_ID, "published_events"), []) if o == "wf"]), "writes": db.writes, "waits": len(tr.waits),
             # a step body that already performed a non-memoised effect is still executing: on recovery it is
             # re-executed (steps are at-least-once) and the effect happens twice
-            "dirty": bool(_Obs.effect_fids & set(RT._get_dbos_instance().inflight_steps)), **info}
+            "dirty": bool(_Obs.effect_fids & set(RT._get_dbos_instance().inflight_steps)),
+            "stored": tr.store_base + len(tr.store_appends), **info}
     if not _Obs.snap_filter(kind, meta):
         return
     meta["state"] = db.snapshot()
@@ -180,6 +197,52 @@ def _journal_rows(path: str, run_id: str = RUN_ID) -> list[tuple]:
             return []
     finally:
         conn.close()
+
+
+def _store_rows(path: str, run_id: str = RUN_ID) -> tuple[list[str], tuple | None]:
+    """the run's rows of the server workflow store: published events in sequence order, handler (status, result)"""
+    conn = sqlite3.connect(path)
+    try:
+        try:
+            evs = [canon_envelope(json.loads(r[0])) for r in conn.execute(
+                "SELECT event_json FROM events WHERE run_id=? ORDER BY sequence", (run_id,))]
+            hs = list(conn.execute("SELECT status, result FROM handlers WHERE run_id=?", (run_id,)))
+        except sqlite3.OperationalError:
+            return [], None
+    finally:
+        conn.close()
+    handler = None
+    if hs:
+        status, result = hs[0]
+        try:
+            rj = json.loads(result) if result else None
+            result = None if rj is None else json.dumps(rj.get("value", rj) if isinstance(rj, dict) else rj, sort_keys=True)
+        except Exception:  # noqa: BLE001
+            pass
+        handler = (status, result)
+    return evs, handler
+
+
+def build_stack(rt: Any, wf: Any, server: dict | None) -> Any:
+    """`server` = None: the workflow runs on the bare DBOSRuntime.  Otherwise the runtime chain a WorkflowServer builds
+    around it: ServerRuntimeDecorator([EventInterceptorDecorator](DBOSRuntime)) with the runtime's own workflow store
+    (DBOSRuntime.create_workflow_store(): the real SqliteWorkflowStore on the system database file), so that the control
+    loop publishes through the real _ServerInternalRunAdapter."""
+    if not server:
+        return rt
+    from llama_agents.server._runtime.server_runtime import ServerRuntimeDecorator
+
+    inner = rt
+    if server.get("intercept"):
+        from llama_agents.server._runtime.event_interceptor import EventInterceptorDecorator
+
+        inner = EventInterceptorDecorator(rt)
+    srt = ServerRuntimeDecorator(inner, store=rt.create_workflow_store(), persistence_backoff=[])
+    wf._switch_runtime(srt)
+    return srt
+
+
+HANDLER_ID = "h-c27"
 
 
 def install_observers() -> None:
@@ -229,6 +292,46 @@ def install_observers() -> None:
 
     CRUD.SqliteJournalCrud.purge_operations_from = purge_wrapper  # type: ignore[method-assign]
 
+    # the server's workflow store (server mode): every committed row is a stop point
+    import llama_agents.server._store.sqlite.sqlite_workflow_store as SWS
+
+    orig_append = SWS.SqliteWorkflowStore.append_event
+
+    async def append_wrapper(self: Any, run_id: str, event: Any) -> None:
+        await orig_append(self, run_id, event)
+        tr = _Obs.trace
+        if tr is not None and run_id == RUN_ID:
+            tr.store_appends.append((len(tr.ticks), canon_envelope(event)))
+            _take_snapshot("store_post_event", nth=len(tr.store_appends), event=canon_envelope(event).split(":", 1)[0])
+
+    SWS.SqliteWorkflowStore.append_event = append_wrapper  # type: ignore[method-assign]
+
+    orig_update = SWS.SqliteWorkflowStore.update
+
+    async def update_wrapper(self: Any, handler: Any) -> None:
+        await orig_update(self, handler)
+        if _Obs.trace is not None and getattr(handler, "run_id", None) == RUN_ID:
+            _take_snapshot("store_post_status", status=str(getattr(handler, "status", None)))
+
+    SWS.SqliteWorkflowStore.update = update_wrapper  # type: ignore[method-assign]
+
+    import llama_agents.server._runtime.server_runtime as SRT
+
+    orig_publish = SRT._ServerInternalRunAdapter.write_to_event_stream
+
+    async def publish_wrapper(self: Any, event: Any) -> None:
+        tr = _Obs.trace
+        if tr is not None and self.run_id == RUN_ID:
+            try:
+                from llama_agents.client.protocol.serializable_events import EventEnvelopeWithMetadata as _Env
+
+                tr.published.append((len(tr.ticks), canon_envelope(_Env.from_event(event))))
+            except Exception as e:  # noqa: BLE001
+                tr.notes.append(f"publication not observed: {e!r}")
+        await orig_publish(self, event)
+
+    SRT._ServerInternalRunAdapter.write_to_event_stream = publish_wrapper  # type: ignore[method-assign]
+
     orig_wait = RT.InternalDBOSAdapter.wait_for_next_task
 
     async def wait_wrapper(self: Any, running: list, pending: list, timeout: float | None = None) -> Any:
@@ -262,7 +365,8 @@ def install_observers() -> None:
             ticks_before=ticks0, stream_before=stream0, journal_after=list(tr.journal_now), fid_at_entry=fid0,
             purged=bool(getattr(tr, "_purged_flag", False)),
             entries_after=None if journal._entries is None else list(journal._entries), idx_after=journal._replay_index,
-            insert_seq=tr.inserts[-1][0] if getattr(tr, "_recorded_flag", False) and tr.inserts else None))
+            insert_seq=tr.inserts[-1][0] if getattr(tr, "_recorded_flag", False) and tr.inserts else None,
+            replaying_after=bool(self.is_replaying())))
         return res
 
     RT.InternalDBOSAdapter.wait_for_next_task = wait_wrapper  # type: ignore[method-assign]
@@ -301,6 +405,7 @@ class _Proc:
 def _observe_db(proc: _Proc, db: SysDB, snap_filter: Any) -> None:
     proc.db = db
     proc.trace.journal_now = _journal_rows(db.db_path)
+    proc.trace.store_base = len(_store_rows(db.db_path)[0])
     _Obs.trace = proc.trace
     _Obs.db = db
     _Obs.snap_filter = snap_filter
@@ -352,6 +457,7 @@ def _collect(proc: "_Proc") -> None:
         tr.store = json.loads(rows[0][0]) if rows else None
     except Exception as e:  # noqa: BLE001
         tr.store = f"<unavailable {type(e).__name__}: {e}>"
+    tr.store_events, tr.handler = _store_rows(db.db_path)
     db.close()
 
 
@@ -398,7 +504,7 @@ def _run_process(proc: _Proc, main_body: Any) -> None:
 
 
 def fresh_run(spec: dict, seed: int, *, snap_filter: Any = None, replay_actions: list[int] | None = None,
-              workdir: str | None = None) -> Trace:
+              workdir: str | None = None, server: dict | None = None) -> Trace:
     """the uninterrupted run; `snap_filter(kind, meta) -> bool` selects crash snapshots"""
     own = workdir is None
     workdir = workdir or tempfile.mkdtemp(prefix="c27_", dir="/dev/shm" if os.path.isdir("/dev/shm") else None)
@@ -411,7 +517,10 @@ def fresh_run(spec: dict, seed: int, *, snap_filter: Any = None, replay_actions:
             rt = RT.DBOSRuntime()
             with rt.registering():
                 wf = LIVE.build_workflow(spec, proc.run)
-            await rt.launch()
+            top = build_stack(rt, wf, server)
+            await top.launch()
+            if server:
+                await top.run_workflow_handler(HANDLER_ID, wf.workflow_name, RUN_ID)  # what _WorkflowService does before the start
             from ..engine import evtypes as ET
 
             handler = wf.run(start_event=ET.T0(uid=1, k=spec.get("start_k")), run_id=RUN_ID)
@@ -425,7 +534,7 @@ def fresh_run(spec: dict, seed: int, *, snap_filter: Any = None, replay_actions:
 
 
 def recover_run(spec: dict, snapshot: dict, seed: int, *, replay_actions: list[int] | None = None,
-                snap_filter: Any = None) -> Trace:
+                snap_filter: Any = None, server: dict | None = None) -> Trace:
     """a new process started on the durable state `snapshot["state"]`"""
     workdir = tempfile.mkdtemp(prefix="c27r_", dir="/dev/shm" if os.path.isdir("/dev/shm") else None)
     proc = _Proc(spec, random.Random(seed), replay_actions, workdir)
@@ -438,8 +547,9 @@ def recover_run(spec: dict, snapshot: dict, seed: int, *, replay_actions: list[i
             DBOS(config={"name": "c27", "_standin_sysdb": db})
             rt = RT.DBOSRuntime()
             with rt.registering():
-                LIVE.build_workflow(spec, proc.run)
-            await rt.launch()  # DBOS.launch() inside re-executes the PENDING workflow
+                wf = LIVE.build_workflow(spec, proc.run)
+            top = build_stack(rt, wf, server)
+            await top.launch()  # DBOS.launch() inside re-executes the PENDING workflow
             await _finish(proc, db, rt.get_external_adapter(RUN_ID), rt)
 
         _run_process(proc, body)
